@@ -18,6 +18,10 @@ NA = {
 }
 
 CHECKS = {
+ "C12": dict(level="exploration", ref="DESIGN.md section 4 (C12)",
+   text="Seeded search over operation histories (literal construction incl. duplicate and unhashable keys, insert, remove, get, has_key, clear, len, keys, values, items) on 1-3 maps whose keys are built at run time in different ways so that equal keys are distinct objects and are referenced only by the map, crossed with the collection schedule (every allocation, and a PRNG tape) under quarantine so that a key or value the map fails to keep alive is an observable use-after-reclaim; also the plain release build. Every operation result is compared with an association-list model keyed by the language's ==, enumerations as multisets. A clean batch is evidence, not proof.",
+   note="Trusted: the abstract map model and its == ; the verif_hooks quarantine/monitor; the runner's value encoding.",
+   technique="deterministic simulation: model-based operation histories x simulator-owned collection schedule with quarantine (use-after-reclaim monitor), op-by-op comparison with an abstract map"),
  "C14": dict(level="exploration", ref="DESIGN.md section 4 (C14)",
    text="Seeded search over import graphs (chains, DAGs, diamonds, self-loops, 2-/3-cycles, mixtures; import sites at module top level, under alias, inside try, inside functions called later, inside fibers) x a simulated file system behind the module-loader seam (per read: ok, not found, read error with every reason string of the default loader, garbled, truncated at a statement boundary, transient) x injected failures inside module bodies x a decision tape that chooses at run time what the driver imports, calls, mutates, and which half-loaded module it suspends inside a fiber and imports meanwhile. The real compiler+VM run in checked and release builds; the full event history and the number of file reads per module must equal a module-system reference model; independently of the model no module body may run twice. A clean batch is evidence, not proof.",
    note="Trusted: the module-system reference model, the runner's loader/printer seams. Open by the property (import of a module whose body failed part-way): executed, must not crash or re-run the body, not compared (counted).",
